@@ -250,6 +250,32 @@ def check_decl(dc, st, tier, only=None):
             if isinstance(x, (list, Packet)):
                 poke(x)
         check_kw(dc, st, {}, dflt, 'defaults after another instance was mutated in place')
+    # the class parses a few inputs (accepted and rejected ones): a packet constructed afterwards still holds and packs the defaults
+    # (where the reference has no encoding - a regexp delimiter that is not kept - the bytes packed BEFORE anything was parsed stand in)
+    try:
+        before = ea.impl_pack(dc.K())
+    except Exception:
+        before = None
+    parsed = 0
+    for raw, r in ea.inputs_for(dc, 120, ext=False):
+        if len(raw) < 2:
+            continue
+        try:
+            dc.K.unpack(raw, silent=True)
+        except Exception:
+            pass
+        parsed += 1
+        if parsed >= 40:
+            break
+    check_kw(dc, st, {}, dflt, 'defaults after the class parsed inputs')
+    try:
+        after = ea.impl_pack(dc.K())
+    except Exception:
+        after = None
+    if before is not None and after is not None and before[0] == 'ok' and after != before:
+        st.violate('pack-of-defaults changes after parsing', '%s().pack() was %r, after the class parsed %d inputs it is %r | %s' % (
+            dc.P['name'], before[1], parsed, after[1], dc.src.replace('\n', '; ')), dc.case(kw={}),
+            dc.snippet('a = %s().pack()\n%s.unpack(b"\\x00X", silent=True)\nprint(a, %s().pack())' % (dc.P['name'], dc.P['name'], dc.P['name'])))
     # keyword values: from the reference's parses
     vals = []
     for raw, r in ea.inputs_for(dc, 300, ext=False):
